@@ -46,7 +46,9 @@ type Case struct {
 	// variable), "value:<name>" (that one variable only; the rest of the store is copied by reference)
 	Mode string `json:"mode"`
 	// ReadOnly: the follow-ups do not mutate containers of the snapshot, so sharing inside it is not observable
-	ReadOnly bool     `json:"readOnly,omitempty"`
+	ReadOnly bool `json:"readOnly,omitempty"`
+	// Autosave: the host takes (and throws away) a snapshot of the whole store after every command before the cut
+	Autosave bool     `json:"autosave,omitempty"`
 	Kinds    []string `json:"kinds,omitempty"` // informational
 }
 
@@ -396,6 +398,11 @@ func checkCase(c Case, s *rt.Section) (*rt.Failure, info) {
 			// a crash of the original VM is C01's subject
 			s.Discard("original-panics")
 			return nil, in
+		}
+		// a host that saves after every command: the earlier snapshots are thrown away, the one judged is the last; taking
+		// a snapshot changes nothing
+		if c.Autosave && i+1 < c.Cut {
+			_ = rt.Guard(func() { _, _ = A.Attrs.ToJSON() })
 		}
 	}
 	only := ""
